@@ -414,6 +414,14 @@ def load_known():
     return out
 
 
+# generated .v file (relative to coq/) -> (owning property, module, zero-argument generator function returning (changed, error))
+FOREIGN_GENERATORS = {
+    "Util/GenUtil.v": ("C19", "props/C19/util_tie.py", "regen_util_constants"),
+    "C08/GenC08.v": ("C08", "props/C08/check.py", "regen_c08_constants"),
+    "C10/GenC10.v": ("C10", "props/C10/check.py", "regen_genc10"),
+}
+
+
 def prepare_proofs(ctx):
     """Steps 1-2 of every check. Fills ctx.proof; records broken obligations."""
     with Lock("coq"):
@@ -424,6 +432,27 @@ def prepare_proofs(ctx):
             ctx.log("Constants.v changed -> rebuilding dependent .vo")
         write_coqproject()
         deps = prop_deps(ctx.prop)
+        # generated constant files of OTHER properties that this property's theorems depend on (the closures grew across
+        # properties in session 3): regenerate them from the working tree too, so that an edit of e.g. hash_sizes[] re-checks
+        # every theorem that rests on it, whichever check is run.  A generator that fails is noted, not reported (the
+        # owning property's check reports it).
+        try:
+            clo = set(prop_closure(ctx.prop))
+            for gen_v, (owner, mod_rel, fn) in FOREIGN_GENERATORS.items():
+                if gen_v in clo and owner != ctx.prop:
+                    try:
+                        import importlib.util as _il
+                        spec = _il.spec_from_file_location("gen_" + owner + "_" + fn, os.path.join(VERIF, mod_rel))
+                        m = _il.module_from_spec(spec); spec.loader.exec_module(m)
+                        r = getattr(m, fn)()
+                        if isinstance(r, tuple) and len(r) == 2 and r[1]:
+                            ctx.notes.append("foreign generator %s: %s" % (gen_v, str(r[1])[-300:]))
+                        elif isinstance(r, tuple) and r[0]:
+                            ctx.log("%s regenerated from the working tree (changed)" % gen_v)
+                    except Exception as e:   # noqa: never let a foreign generator break this check
+                        ctx.notes.append("foreign generator %s failed: %r" % (gen_v, e))
+        except Exception as e:
+            ctx.notes.append("foreign generators skipped: %r" % (e,))
         rc, log = coq_make(deps) if deps else (0, "")
         if rc != 0:
             ctx.notes.append("coq make reported errors: " + log[-1500:])
